@@ -46,10 +46,15 @@ def build(sim_dir=SIM_DIR):
 
 def argv_of(job):
     if job.get("cycle"):
-        return [str(job["K"]), str(job["D"]), ",".join(f"{n}{t}" for (t, n) in job["cycle"]), "both",
-                str(job["order"]), str(int(job["yield"])), str(int(job["main"])), str(int(job.get("battery", 0))), "cyc"]
-    return [str(job["K"]), str(job["D"]), ",".join(str(n) for n in job["sizes"]), job["types"],
-            str(job["order"]), str(int(job["yield"])), str(int(job["main"])), str(int(job.get("battery", 0)))]
+        a = [str(job["K"]), str(job["D"]), ",".join(f"{n}{t}" for (t, n) in job["cycle"]), "both",
+             str(job["order"]), str(int(job["yield"])), str(int(job["main"])), str(int(job.get("battery", 0))), "cyc"]
+    else:
+        a = [str(job["K"]), str(job["D"]), ",".join(str(n) for n in job["sizes"]), job["types"],
+             str(job["order"]), str(int(job["yield"])), str(int(job["main"])), str(int(job.get("battery", 0)))]
+    if job.get("ops"):
+        a += ["seq"] if len(a) == 8 else []
+        a += [str(job["ops"])]
+    return a
 
 
 def nthreads(job):
@@ -77,6 +82,9 @@ def predicted_cost(job):
     c += draws_of(job) * 0.004  # per-draw overhead (alloc, stamps, checks)
     if job.get("battery"):
         c += 3.0 * k
+    if job.get("ops"):
+        # one neighbour operation (~30 ms) per four draws (odd seed: mix) or per draw (even seed: fixed)
+        c += draws_of(job) * (0.008 if job["ops"] & 1 else 0.03)
     return c
 
 
